@@ -257,8 +257,7 @@ Definition mark_roots (vd fuel : nat) (order : list N) (v : vm) (m0 : gmap) : ou
   do m1 <- mark_addrs mk order m0;
   do m2 <- mark_addrs mk (slot_ptrs (g_slots v)) m1;
   (* self.stack[0..self.sp + 1] *)
-  do stk <- (if sp v + 1 <=? N.of_nat (length (stack v))
-             then Ok (firstn (N.to_nat (sp v + 1)) (stack v)) else Panic 65);
+  do stk <- (if sp v <? scap v then Ok (stack_to_sp v) else Panic 65);
   do m3 <- mark_list mv stk m2;
   do m4 <- mv (acc v) m3;
   do m5 <- mk (fst (ip v)) m4;
